@@ -89,4 +89,107 @@ theorem ι_valP_map_σ (N : Nat) (g : Int) (hN : 0 < N) (hg : GalOk g N) (b : Na
     simp [limbOr0, List.getD_eq_getElem?_getD, List.getElem?_eq_getElem hk']
   rw [e1, e2, ι_σ N g hN hg _ (hc _ (List.getElem_mem hk'))]
 
+theorem getD_map_col (cols : List Col) (f : Col → Col) (hf : f [] = []) (i : Nat) :
+    (cols.map f).getD i [] = f (cols.getD i []) := by
+  simp only [List.getD_eq_getElem?_getD, List.getElem?_map]
+  cases cols[i]? with
+  | none => exact hf.symm
+  | some c => rfl
+
+/-- **`σ_g` on every limb of every column**: the phase under `sk = σ_g(sk')` is the Galois image of the phase under `sk'` -/
+theorem ι_valP_phase_σ (N : Nat) (g : Int) (hN : 0 < N) (hg : GalOk g N) (b S : Nat) (sk sk' : List Poly) (cols : List Col)
+    (hne : cols ≠ []) (hwf : ∀ c ∈ cols, ColWF N S c) (hlen : sk.length = sk'.length) (hsk' : Ks.AllLen N sk')
+    (hsk : ∀ i, i < sk'.length → sk.getD i [] = σ g (sk'.getD i [])) :
+    Ks.ι N (valP b N (phase sk (Ks.mkCt b N (cols.map (fun c => c.map (σ g))))))
+      = gal N g hN hg (Ks.ι N (valP b N (phase sk' (Ks.mkCt b N cols)))) := by
+  have hwf' : ∀ c ∈ cols.map (fun c => c.map (σ g)), ColWF N S c := by
+    intro c hc
+    obtain ⟨c0, h0, rfl⟩ := List.mem_map.mp hc
+    refine ⟨by rw [List.length_map]; exact (hwf c0 h0).1, ?_⟩
+    intro l hl
+    obtain ⟨l0, hl0, rfl⟩ := List.mem_map.mp hl
+    rw [σ_length]; exact (hwf c0 h0).2 l0 hl0
+  have hne' : cols.map (fun c => c.map (σ g)) ≠ [] := by simpa using hne
+  have hlimbs : ∀ i, LimbsN N (cols.getD i []) := by
+    intro i l hl
+    by_cases hi : i < cols.length
+    · rw [List.getD_eq_getElem?_getD, List.getElem?_eq_getElem hi] at hl
+      exact (hwf _ (List.getElem_mem hi)).2 l hl
+    · rw [List.getD_eq_getElem?_getD, List.getElem?_eq_none (by omega)] at hl
+      simp at hl
+  rw [Core.ι_valP_phase_cols N hN b S sk _ hne' hwf', Core.ι_valP_phase_cols N hN b S sk' _ hne hwf, map_add, map_sum,
+    List.length_map, hlen, getD_map_col _ _ rfl, ι_valP_map_σ N g hN hg b _ (hlimbs 0)]
+  congr 1
+  apply Finset.sum_congr rfl
+  intro i hi
+  have hi' : i < sk'.length := by have := Finset.mem_range.mp hi; omega
+  have hmem : sk'.getD i [] ∈ sk' := by
+    rw [List.getD_eq_getElem?_getD, List.getElem?_eq_getElem hi']; exact List.getElem_mem hi'
+  rw [map_mul, getD_map_col _ _ rfl, ι_valP_map_σ N g hN hg b _ (hlimbs (i + 1)), hsk i hi', ι_σ N g hN hg _ (hsk' _ hmem)]
+
+theorem dropL_length (N : Nat) (b : Nat) (sk : List Poly) (aB : Buf) (key : Ks.Key) (hc0 : 0 < key.mat.colsOut)
+    (hM : ∀ j q, (key.mat.entry j q).length = N) : (Ks.dropL N b sk aB key).length = N := by
+  unfold Ks.dropL
+  apply Ks.sumPolys_range_length
+  intro i _
+  apply Ks.sumPolys_range_length
+  intro di _
+  apply Ks.sumPolys_range_length
+  intro r _
+  apply Ks.sumPolys_range_length
+  intro l _
+  exact Ks.dropTermL_length N _ sk _ key i di r l hc0 hM
+
+theorem ksErr_length (N : Nat) (c1 c2 c3 : ℤ) (E1 G D E3 : Poly) (h1 : E1.length = N) (h2 : G.length = N) (h3 : D.length = N)
+    (h4 : E3.length = N) : (ksErr c1 c2 c3 E1 G D E3).length = N := by
+  simp [ksErr, h1, h2, h3, h4]
+
+/-- the digits of the result of the executed key switch are `≤ 2^bout − 1` (same hypotheses as `glwe_keyswitch_value`) -/
+theorem keyswitch_digits (big128 : Bool) (N bout sout rout : Nat) (a : Ks.Ct) (key : Ks.Key) (sIn skOut : List Poly)
+    (EL KL : ℕ → ℕ → Poly) (Hin Hp : Int)
+    (hN : 0 < N) (ha : GWF N a) (hrank : a.rank = key.rankIn) (hrout : rout = key.rankOut) (hc0 : 0 < key.mat.colsOut)
+    (hD : 1 ≤ key.dsize) (hM : ∀ j q, (key.mat.entry j q).length = N) (hS : key.mat.rows * key.dsize ≤ key.mat.size)
+    (hbi1 : 1 ≤ a.base2k) (hbi : a.base2k ≤ 62) (hbk1 : 1 ≤ key.base2k) (hbk : key.base2k ≤ 62) (hbo1 : 1 ≤ bout) (hbo : bout ≤ 62)
+    (hIn0 : 0 ≤ Hin) (hIn : Hin + 8 ≤ 2 ^ 62) (hInB : ∀ c ∈ a.cols, ∀ l ∈ c, ∀ x ∈ l, |x| ≤ Hin)
+    (hHp0 : 0 ≤ Hp) (hAcc : Hp + (Hin + 2 ^ key.base2k) + 8 ≤ 2 ^ (bitsOf big128 - 2))
+    (hprod : ∀ aConv, Ks.convIn a key = .ok aConv → ∀ i, i < rout + 1 → ∀ l ∈ (prodOf rout aConv key).act i, ∀ x ∈ l, |x| ≤ Hp)
+    (hEL : ∀ i r, (EL i r).length = N) (hKL : ∀ i r, (KL i r).length = N)
+    (hkey : ∀ i, i < key.mat.colsIn → ∀ r, r < key.mat.rows →
+      Gadget.val (Ks.radix N key.base2k) key.mat.size (Ks.keyPhase N skOut key.mat i r) =
+        Ks.ι N (sIn.getD i []) * Ks.radix N key.base2k ^ (key.mat.size - (r + 1) * key.dsize) + Ks.ι N (EL i r)
+          + Ks.radix N key.base2k ^ key.mat.size * Ks.ι N (KL i r)) :
+    ∀ res, Ks.keyswitch big128 bout sout rout a key = .ok res → ∀ c ∈ res.cols, ∀ l ∈ c, ∀ x ∈ l, |x| ≤ 2 ^ bout - 1 := by
+  intro res hres
+  have hrank' : a.rank = key.mat.colsIn := hrank
+  have hrout' : rout + 1 = key.mat.colsOut := by rw [hrout]; unfold Ks.Key.rankOut; omega
+  have hpk : (0 : Int) < 2 ^ key.base2k := by positivity
+  obtain ⟨aConv, hconv, gwC, hbC, hrC, hsC, hdigC, hph1⟩ := convIn_phase N a key Hin ha hbi1 hbi hbk1 hbk hIn0 hIn hInB
+  have hbodymem : aConv.cols.getD 0 [] ∈ aConv.cols := col_mem 0 (by rw [gwC.len]; omega)
+  have hHadd : Hp + (Hin + 2 ^ key.base2k) < 2 ^ (bitsOf big128 - 1) := by
+    have h2 : (2 : Int) ^ (bitsOf big128 - 2) ≤ 2 ^ (bitsOf big128 - 1) :=
+      pow_le_pow_right₀ (by norm_num) (by omega)
+    linarith
+  obtain ⟨resBig, hks, hbn, hwfacc, hbacc, hval⟩ := keyswitchInternal_value big128 N rout aConv key sIn skOut EL KL Hp (Hin + 2 ^ key.base2k)
+    hN gwC hbC (hrC.trans hrank') hrout' hD hM hS hEL hKL hkey (by linarith) hHadd (hprod aConv hconv) (hdigC _ hbodymem)
+  have hne : accCols rout resBig ≠ [] := by
+    intro h; have := congrArg List.length h; simp [accCols] at this
+  obtain ⟨cs, hok, hlen, hcwf, hdig, _⟩ := norm_stage big128 N bout sout key.base2k key.mat.size (Hp + (Hin + 2 ^ key.base2k))
+    (accCols rout resBig) hbo1 hbo hbk1 hbk (by linarith) hAcc hne hwfacc hbacc
+  have hno : Ks.normOut big128 bout sout rout resBig key = .ok (Ks.mkCt bout N cs) := by
+    unfold Ks.normOut
+    have e : (List.range (rout + 1)).map (fun i => Ks.bigNormalize big128 bout sout (resBig.act i) key.base2k resBig.n)
+        = (accCols rout resBig).map (fun c => Ks.bigNormalize big128 bout sout c key.base2k N) := by
+      unfold accCols; rw [List.map_map, hbn]; rfl
+    rw [e, hok, hbn]
+    rfl
+  have hok2 : Ks.keyswitch big128 bout sout rout a key = .ok (Ks.mkCt bout N cs) := by
+    unfold Ks.keyswitch
+    rw [if_neg (by simpa using hrank), if_neg (by simpa using hrout)]
+    have hnn : a.n = aConv.n := by rw [ha.1, gwC.1]
+    simp only [hconv, Ks.obind, hnn, hks, hno]
+  rw [hok2] at hres
+  injection hres with hres
+  subst hres
+  exact hdig
+
 end KsDec
